@@ -99,7 +99,7 @@ CLAIMED = {
             'DESIGN.md section 3, C07'),
     'C14': ('fault_enumeration',
             'fault enumeration with property-based placement (Hypothesis): every row of a refusal catalogue (mutator x cause x stage) injected at generated points of generated histories; twin-run byte comparison',
-            'The refusal catalogue (vf/model.py BadCatalogue, 76 rows: bad/duplicate/over-long name or missing parent in the first, second or third namespace, wrong entry type, missing Rock Ridge name, foreign-namespace arguments, depth, invalid boot parameters with and without a boot info table, duplicate catalog names per namespace, hybrid parameters, wrong object state ...) is enumerated; each refused call is placed at a drawn point of a generated history. The image written right after the refused call must equal the one written right before it, the final image must equal that of the twin run without the refused calls, later edits must behave identically and no write may fail. Evidence lists hits per catalogue row.',
+            'The refusal catalogue (vf/model.py BadCatalogue, 87 rows: 11 late refusals of records that already reserved a Rock Ridge continuation area, and bad/duplicate/over-long name or missing parent in the first, second or third namespace, wrong entry type, missing Rock Ridge name, foreign-namespace arguments, depth, invalid boot parameters with and without a boot info table, duplicate catalog names per namespace, hybrid parameters, wrong object state ...) is enumerated; each refused call is placed at a drawn point of a generated history. The image written right after the refused call must equal the one written right before it, the final image must equal that of the twin run without the refused calls, later edits must behave identically and no write may fail. Evidence lists hits per catalogue row.',
             'A catalogue call that the library accepts is handed to C13 (counted). modify_file_in_place refusals are C17.',
             'DESIGN.md section 3, C14 and appendix A'),
     'C17': ('exploration',
@@ -109,7 +109,7 @@ CLAIMED = {
             'DESIGN.md section 3, C17'),
     'C15': ('fault_enumeration',
             'structured mutation fuzzing: Hypothesis-driven (quick) and coverage-guided atheris/libFuzzer (thorough) patches of valid base images taken from independent field maps; exception-type and work-bound oracle',
-            'One decoder turns (base image, patch list) into bytes: 48 valid base images from the history engine (all extension combinations) are truncated at drawn lengths, have fields from the independent readers\' field maps (lengths, extents, counts, tags, pointers - ISO9660, SUSP, path tables, El Torito, UDF, MBR/GPT) replaced by boundary/cyclic/out-of-range/byte-swapped/random values, or bytes flipped. open_fp on the result must return or raise a PyCdlibException subclass; a deterministic work bound on the reads of the image file, RLIMIT_AS and a 30 s alarm decide termination and memory. The thorough tier adds 15 atheris processes feeding the same decoder (and raw splices) with coverage feedback, from empty and seeded corpora. Violations are bucketed by (exception type, innermost repository frame).',
+            'One decoder turns (base image, patch list) into bytes: 56 valid base images from the history engine (all extension combinations, 8 of them with a real boot info table) are truncated at drawn lengths, have fields from the independent readers\' field maps (lengths, extents, counts, tags, pointers - ISO9660, SUSP, path tables, El Torito, UDF, MBR/GPT) replaced by boundary/cyclic/out-of-range/byte-swapped/random values, or bytes flipped. open_fp on the result must return or raise a PyCdlibException subclass; a deterministic work bound on the reads of the image file, RLIMIT_AS and a 30 s alarm decide termination and memory. The thorough tier adds 15 atheris processes feeding the same decoder (and raw splices) with coverage feedback, from empty and seeded corpora. Violations are bucketed by (exception type, innermost repository frame).',
             'Sampling of the byte-string space around valid images; arbitrary random bytes mostly die at the first magic check and are exercised through the raw-splice mode only.',
             'DESIGN.md section 3, C15'),
 }
